@@ -15,10 +15,10 @@ import (
 // vxTagSel matches elements by tag name.
 type vxTagSel struct{ tag string }
 
-func (s vxTagSel) Match(n *html.Node) bool             { return n.Type == html.ElementNode && n.Data == s.tag }
-func (vxTagSel) Specificity() selector.Specificity    { return selector.Specificity{0, 0, 1} }
-func (s vxTagSel) String() string                      { return s.tag }
-func (vxTagSel) PseudoElement() string                 { return "" }
+func (s vxTagSel) Match(n *html.Node) bool         { return n.Type == html.ElementNode && n.Data == s.tag }
+func (vxTagSel) Specificity() selector.Specificity { return selector.Specificity{0, 0, 1} }
+func (s vxTagSel) String() string                  { return s.tag }
+func (vxTagSel) PseudoElement() string             { return "" }
 
 func vxRule(tag string, decls ...validation.Declaration) match {
 	return match{selector: selector.SelectorGroup{vxTagSel{tag}}, declarations: decls}
